@@ -238,6 +238,14 @@ func (t *ctrial) newSub(kind, target string, paths [][]string, when string) *csu
 	for _, p := range paths {
 		sl.Subscription = append(sl.Subscription, &pb.Subscription{Path: gen.Path(false, p...)})
 	}
+	// A third of the single-target streams of a target that is going to be removed
+	// ask for updates only (no snapshot; the sync comes first): the end of such a
+	// stream is owed exactly like any other's. Streams that have to converge to
+	// the cache keep their snapshot.
+	if kind == "x-stream" && t.op == "remove" && t.rng.Intn(3) == 0 {
+		sl.UpdatesOnly = true
+		t.r.Count("conc_x_stream_updates_only", 1)
+	}
 	s.req = &pb.SubscribeRequest{Request: &pb.SubscribeRequest_Subscribe{Subscribe: sl}}
 	s.st = vlib.NewStream(context.Background(), "c14")
 	s.st.SendGate = func(i int, _ *pb.SubscribeResponse) error {
